@@ -429,10 +429,75 @@ def hash_job(arg):
     return out
 
 
+# ---------------------------------------------------------------- part E
+def reload_job(arg):
+    """Reload.tla: to_file + from_file at any point of a history (tour)"""
+    from harness import engine
+    from pycel import ExcelCompiler
+    name, src, ft, seed = arg
+    rnd = random.Random(seed)
+    wb = W.WORKBOOKS[name]
+    oracle = engine.Oracle(wb)
+    g = engine.gen_reload_graph(name, wb, [2], src, settable=sorted(wb['inputs'])[:1])
+    reloads = sum(1 for es in g.out.values() for e in es if e[0]['op'] == 'reload')
+    if not reloads:
+        raise tlc.MachineryFailure('vacuous: no Reload transition')
+    out = dict(part='reload', ext=ft, cycles=False, violations=[], known=[], notes=[], cases=0,
+               tlc=[dict(run=f'Reload {name}/{src}', distinct=g.tlc.distinct,
+                         generated=g.tlc.generated, depth=g.tlc.depth,
+                         wall_s=round(g.tlc.wall, 2))],
+               sample=dict(workbook=name, source=src, file_type=ft, reload_edges=reloads))
+    workdir = tlc.new_scratch('rl')
+    drift = []
+    counter = [0]
+
+    class M(engine.RealModel):
+        def do(self, act, variant='str'):
+            if act['op'] == 'reload':
+                try:
+                    counter[0] += 1
+                    base = os.path.join(workdir, f'r{counter[0]}_model')
+                    self.m.to_file(base, file_types=(ft,))
+                    self.m = ExcelCompiler.from_file(base + '.' + ft)
+                    return 'ok', None
+                except Exception as exc:      # noqa
+                    return 'exc', f'{type(exc).__name__}: {exc}'
+            return super().do(act, variant)
+
+    def on_step(model, s_, act, spec_ret, t, hist):
+        out['cases'] += 1
+        status, got = model.do(act)
+        case = dict(workbook=name, source=src, file_type=ft, cells=W.cells(wb)[0],
+                    history=list(hist))
+        if status == 'exc':
+            out['violations'].append((f'{act} raised {got} [{name}/{src}/{ft}]', case))
+            return
+        if act['op'] == 'evaluate':
+            inputs = {a: W.py_val(x) for a, x in g.states[t]['inp'].items()}
+            st, want = oracle.values(inputs)[act['n']]
+            if not xl.same_value(got, want):
+                out['violations'].append((
+                    f'evaluate({act["n"]}) returned {got!r} after a save/load in the history; a '
+                    f'from-scratch compile with inputs {inputs} gives {want!r} [{name}/{src}/{ft}]',
+                    case))
+        if not drift:
+            from harness.engine import state_matches
+            diffs = state_matches(g.states[t], model.project())
+            if diffs:
+                drift.append(1)
+                out['notes'].append(f'spec-drift (Reload) on {name}/{src}/{ft} after '
+                                    f'{[a["op"] + ":" + str(a.get("n", "")) for a in hist[-5:]]}: {diffs[:2]}')
+
+    steps, restarts, covered = engine.tour(g, lambda: M(wb, src, workdir), on_step, rnd=rnd)
+    out['histories'] = restarts + 1
+    out['violations'] = out['violations'][:4]
+    return out
+
+
 def any_job(arg):
     kind, a = arg
     return dict(protocol=protocol_job, fidelity=fidelity_job, lockstep=lockstep_job,
-                hash=hash_job)[kind](a)
+                hash=hash_job, reload=reload_job)[kind](a)
 
 
 def run(tier, seed):
@@ -445,6 +510,13 @@ def run(tier, seed):
     jobs.append(('fidelity', ('yml', cy, seed)))
     for ft in ('yml', 'json', 'pkl'):
         jobs.append(('hash', (ft, seed)))
+    rl = [('nested', 'NoData', 'yml'), ('alias', 'Stored', 'pkl'), ('cse', 'NoData', 'json')]
+    if tier != 'quick':
+        rl += [(n, s_, f) for n in ('chain', 'range', 'grid', 'trimex', 'twosheet')
+               for s_, f in (('NoData', 'yml'), ('NoData', 'pkl'), ('Stored', 'json'))
+               if not (n == 'twosheet' and s_ == 'Stored')]
+    for n, s_, f in rl:
+        jobs.append(('reload', (n, s_, f, seed)))
     k = 0
     reps = 1 if tier == 'quick' else 6
     for rep in range(reps):
@@ -466,10 +538,10 @@ def run(tier, seed):
         key = (r['part'], r['ext'], r['cycles'])
         v.distinct.update((key, i) for i in range(r['cases']))
         parts[str(key)] = parts.get(str(key), 0) + r['cases']
-        if r['part'] == 'protocol':
+        if r['part'] in ('protocol', 'reload'):
             v.traces += r['histories']
-            v.extra['protocol_loads'] = v.extra.get('protocol_loads', 0) + r['loads']
-            v.extra['stale_pickle_reads_seen'] = v.extra.get('stale_pickle_reads_seen', 0) + r['stale_seen']
+            v.extra['protocol_loads'] = v.extra.get('protocol_loads', 0) + r.get('loads', 0)
+            v.extra['stale_pickle_reads_seen'] = v.extra.get('stale_pickle_reads_seen', 0) + r.get('stale_seen', 0)
         else:
             v.traces += r['cases']
         for n in r['notes']:
